@@ -24,6 +24,8 @@ def rand_argv(r):
 		if r.random() < 0.6:
 			addr, port = r.choice(parents)
 			idx = nchild.get((addr, port), 0) + 1
+			if r.random() < 0.15:
+				idx = max(idx, r.choice((10, 12, 21)))        # child indices need not be single digits
 			nchild[(addr, port)] = idx
 			d = "%s:%d/%d" % (addr, port, idx)
 		else:
